@@ -5,6 +5,7 @@ import (
 	"errors"
 	"fmt"
 
+	"github.com/protolambda/ztyp/bitfields"
 	"github.com/protolambda/ztyp/codec"
 	"github.com/protolambda/ztyp/tree"
 	. "github.com/protolambda/ztyp/view"
@@ -104,8 +105,10 @@ func (p *SyncnetBits) Deserialize(dr *codec.DecodingReader) error {
 	if p == nil {
 		return errors.New("nil syncnet bits")
 	}
-	_, err := dr.Read(p[:])
-	return err
+	if _, err := dr.Read(p[:]); err != nil {
+		return err
+	}
+	return bitfields.BitvectorCheck(p[:], SYNC_COMMITTEE_SUBNET_COUNT)
 }
 
 func (p SyncnetBits) Serialize(w *codec.EncodingWriter) error {
